@@ -1222,6 +1222,19 @@ class Definition(Macro):
                     if t == a:
                         break
                     param.append(t)
+                # TeX removes the braces of a delimited argument that
+                # consists of exactly one group
+                if len(param) > 1 and param[0].catcode == Token.CC_BGROUP:
+                    level = 0
+                    for i, t in enumerate(param):
+                        if t.catcode == Token.CC_BGROUP:
+                            level += 1
+                        elif t.catcode == Token.CC_EGROUP:
+                            level -= 1
+                        if level == 0:
+                            break
+                    if level == 0 and i == len(param) - 1:
+                        param = param[1:-1]
                 inparam = False
                 params.append(param)
 
